@@ -128,7 +128,19 @@ pub fn two_runs_islands() -> Vec<Vec<u8>> {
                     s.extend_from_slice(&bases[3..3 + island]);
                     s.extend(std::iter::repeat(b'N').take(run2));
                     s.extend_from_slice(b"ACGTTGCA");
-                    out.push(s);
+                    out.push(s.clone());
+                    // the same with each run closed by ANOTHER ambiguous byte (an IUPAC code, a soft-masked n, a gap sign)
+                    if run1 >= 7 && island <= 3 {
+                        for (j, &closer) in b"Rn-".iter().enumerate() {
+                            if (lead + island + j) % 3 == 0 {
+                                let mut t = s.clone();
+                                t[lead + run1 - 1] = closer;
+                                let end2 = lead + run1 + island + run2 - 1;
+                                t[end2] = closer;
+                                out.push(t);
+                            }
+                        }
+                    }
                 }
             }
         }
